@@ -8,6 +8,7 @@ self-closing style only changes ` /` or `/` before `>`.
 """
 import re, itertools
 from emmet import expand, markup_abbreviation, stringify_markup
+from mc import session
 from emmet.config import Config
 from mc import explore
 from mc.lexers import lex_html
@@ -203,9 +204,6 @@ def elements_preorder(tree, out=None):
     return out
 
 
-_SESSION_CACHE = {}
-
-
 def check(seq, labels, syntax, opts):
     """-> list of (class, detail)"""
     abbr = M.render(seq, labels)
@@ -214,7 +212,7 @@ def check(seq, labels, syntax, opts):
         # the calls of one shard share one `cache` dict, as an editor session does: whatever a call leaves in it must not
         # make a later call with other formatting options behave differently (a violation that needs the earlier calls is
         # found again by the runner's shard replay)
-        out = expand(abbr, {'syntax': syntax, 'options': ro, 'cache': _SESSION_CACHE})
+        out = expand(abbr, {'syntax': syntax, 'options': ro, 'cache': session.CACHE})
     except Exception as e:
         return abbr, [('exception:%s' % type(e).__name__, str(e)[:120])]
     bad = []
@@ -360,7 +358,6 @@ def cases(tier, si):
 
 
 def run_shard(shard, ctx, tier):
-    _SESSION_CACHE.clear()
     if shard['sweep'] == 'attrs':
         return run_attrs(shard, ctx)
     si, k, of = shard['sweep'], shard['k'], shard['of']
